@@ -439,6 +439,7 @@ def run(check, an: Analysis):
     # the scope absorbs its own cancellation only: what interrupts the *caller* of
     # collect()/first() from outside passes through after the rest was aborted
     _scope.check_suppression(check, an, 'abort')
+    _scope.check_foreign_signal_leaves_exit(check, an, 'abort')
     # aborting an activity closes it whether it has started or not, and a closed activity
     # leaves whatever it was waiting for (the very pair it subscribed)
     c04.check_task_close(check, an, 'abort')
